@@ -14,9 +14,11 @@ AUTO = dict(lit='auto pRec = m_FlatCombining.acquire_record();', to='fc_record* 
 
 def G(name, harness, fns, expect, unwind=8, timeout=900, defines=()):
     return dict(name=name, harness=harness, enforce=[], dfcc=False, functions=fns, expect=expect, props=['C10'], timeout=timeout, unwind=unwind, defines=list(defines),
+                replay=dict(driver='replay.cpp', case=name, vars=[], repo_sources=RS, libs=['-lboost_thread', '-lboost_system']),
                 bounded='batch of <= 3 (quick) / 4 (thorough) publication records with symbolic operations and values; deque contents <= 3 elements')
 
 
+RS = ['src/hp.cpp', 'src/init.cpp', 'src/thread_data.cpp', 'src/hp_thread_local.cpp', 'src/dhp.cpp', 'src/topology_linux.cpp', 'src/urcu_gp.cpp', 'src/urcu_sh.cpp']
 UNIT = dict(
     properties=['C10'],
     stage=[
